@@ -261,7 +261,7 @@ theorem whole_ref_top {n m : Nat} {root : Mapping} {k0 : Str} {v0 r r0 : Value}
     (hget : root.get (.str k0) = some v0)
     (h : tokRender n root (.ref [.lit k0]) st = .ok (r, st'))
     (h0 : interp m root v0 st0 = .ok (r0, st0')) : erase r = erase r0 :=
-  whole_ref_path (sp := {}) hw (slice_single_lit 0 root k0 {}) (splitColon_of_not_mem hcolon) hget
+  whole_ref_path (sp := {}) hw (slice_lit 0 root k0 {}) (splitColon_noColon hcolon) hget
     (by simp [rawPath]) h h0
 
 /-- `whole_ref_path` seen from `Value::interpolate` of the string that holds the reference. -/
@@ -279,16 +279,14 @@ theorem whole_ref_interp {n m j : Nat} {root : Mapping} {s : Str} {parts : List 
     rw [interp_str, hparse] at h
     exact whole_ref_path hw hpath hsplit hget hraw h h0
 
-/-- **In the rendered parameters, `k: ${k0}` equals the entry `k0`.**  If rendering well-formed
-parameters succeeds, `k` holds a string that parses to the whole-value reference `${k0}` (no
-`:` in `k0`) and `k0` is a top-level key, then both keys are present in the output and carry the
-same value — same kind, same data at every depth (`erase` forgets only the order/contents of
-flag sets of nested mappings). -/
-theorem whole_ref_final_top {n : Nat} {root out : Mapping} {k : Key} {s k0 : Str}
-    (hw : WF root.toValue) (h : renderParamsF n root = .ok out)
-    (hk : (k, .str s) ∈ root.es) (hparse : Token.parse s = .ok (some (.ref [.lit k0])))
-    (hcolon : ':' ∉ k0) (hk0 : Key.str k0 ∈ keys root.es) :
-    ∃ a b, lookup k out.es = some a ∧ lookup (.str k0) out.es = some b ∧ erase a = erase b := by
+/-- **A rendered parameter is the interpolation of the raw parameter.**  If rendering
+well-formed parameters succeeds, every top-level entry `(k, v)` is present in the output and
+holds — up to the flag sets of nested mappings — what `Value::interpolate` returns for `v`
+(started from the empty state with `k` pushed; by `state_independence_interp` from any state). -/
+theorem render_entry {n : Nat} {root out : Mapping} {k : Key} {v : Value}
+    (hw : WF root.toValue) (h : renderParamsF n root = .ok out) (hk : (k, v) ∈ root.es) :
+    ∃ x s z, interp n root v (({} : RState).pushMappingKey k) = .ok (x, s) ∧
+      lookup k out.es = some z ∧ erase z = erase x := by
   unfold renderParamsF renderedF at h
   cases n with
   | zero => simp [interp] at h
@@ -311,30 +309,64 @@ theorem whole_ref_final_top {n : Nat} {root out : Mapping} {k : Key} {s k0 : Str
         simp only
         obtain ⟨_, E1⟩ := interpEs_entries root.es n {} m1 hm.1 (by simpa using hm.2) h1
         obtain ⟨_, E2⟩ := flatEs_entries m1.es {} m2 hw1.1 (by simpa using hw1.2) h2
-        -- the target entry
-        obtain ⟨v0, hv0⟩ : ∃ v0, lookup (.str k0) root.es = some v0 := by
-          cases hl : lookup (.str k0) root.es with
-          | none => exact absurd hk0 (lookup_none_iff.1 hl)
-          | some v0 => exact ⟨v0, rfl⟩
-        have hv0w : WF v0 := lookup_some_wf hm.1 hv0
-        obtain ⟨x0, s0, y0, hx0, hy0, hl0⟩ := E1 _ _ (Reclass.lookup_mem hv0)
-        obtain ⟨xk, sk, yk, hxk, hyk, hlk⟩ := E1 _ _ hk
-        -- the reference renders to what the target renders to
-        have hrefeq : erase xk = erase x0 := by
-          cases n with
-          | zero => simp [interp] at hxk
-          | succ n =>
-            rw [interp_str, hparse] at hxk
-            exact whole_ref_top hw hcolon hv0 hxk hx0
-        obtain ⟨hc0, hw0⟩ := C07.interp_closed hw hv0w hx0
-        obtain ⟨hck, hwk⟩ := C07.interp_closed hw (by simp [WF] : WF (.str s)) hxk
-        obtain ⟨e0, hcy0, hwy0⟩ := flat_erase hc0 hw0 hy0
-        obtain ⟨ek, hcyk, hwyk⟩ := flat_erase hck hwk hyk
-        obtain ⟨z0, hz0, hlz0⟩ := E2 _ _ (Reclass.lookup_mem hl0)
-        obtain ⟨zk, hzk, hlzk⟩ := E2 _ _ (Reclass.lookup_mem hlk)
-        obtain ⟨f0, _, _⟩ := flat_erase hcy0 hwy0 hz0
-        obtain ⟨fk, _, _⟩ := flat_erase hcyk hwyk hzk
-        exact ⟨zk, z0, hlzk, hlz0, by rw [fk, ek, hrefeq, ← e0, ← f0]⟩
+        obtain ⟨x, s, y, hx, hy, hl⟩ := E1 _ _ hk
+        have hvw : WF v := by
+          have := lookup_of_mem_nodup hm.2 hk
+          exact lookup_some_wf hm.1 this
+        obtain ⟨hc, hwx⟩ := C07.interp_closed hw hvw hx
+        obtain ⟨e1, hcy, hwy⟩ := flat_erase hc hwx hy
+        obtain ⟨z, hz, hlz⟩ := E2 _ _ (mem_of_lookup hl)
+        obtain ⟨e2, _, _⟩ := flat_erase hcy hwy hz
+        exact ⟨x, s, z, interp_fuel_mono _ _ _ hx (by simp), hlz, e2.trans e1⟩
+
+/-- **In the rendered parameters, `k: ${a:b:c}` equals what is found at `a:b:c`.**  If rendering
+well-formed parameters succeeds, `k` holds a string that parses to a whole-value reference whose
+path pieces render to `path = k0:s1:…:sm`, and the walk from the raw entry `k0` along `s1…sm`
+goes through raw mappings (`Refs.rawPath`), then in the *output* the entry `k` and the value
+found by walking `k0:s1:…:sm` are the same — same kind, same data at every depth (`erase`
+forgets only flag sets of nested mappings). -/
+theorem whole_ref_final_path {n j : Nat} {root out : Mapping} {k : Key} {s : Str}
+    {parts : List Token} {path k0 : Str} {segs : List Str} {v0 vt : Value} {sp : RState}
+    (hw : WF root.toValue) (h : renderParamsF n root = .ok out)
+    (hk : (k, .str s) ∈ root.es) (hparse : Token.parse s = .ok (some (.ref parts)))
+    (hpath : slice j root parts sp = .ok path) (hsplit : splitColon path = k0 :: segs)
+    (hget : root.get (.str k0) = some v0) (hraw : rawPath v0 segs = some vt) :
+    ∃ a b, lookup k out.es = some a ∧ rawPath out.toValue (k0 :: segs) = some b ∧
+      erase a = erase b := by
+  have hm := hw
+  simp only [Mapping.toValue, WF] at hm
+  have hv0w : WF v0 := lookup_some_wf hm.1 hget
+  obtain ⟨xk, sk, zk, hxk, hlk, ek⟩ := render_entry hw h hk
+  obtain ⟨x0, s0, z0, hx0, hl0, e0⟩ := render_entry hw h (mem_of_lookup hget)
+  obtain ⟨xt', xt, jt, st1, s1, hp, hi, he⟩ := interp_rawPath hw segs n v0 vt x0 _ s0 hv0w hraw hx0
+  obtain ⟨b, hb, hbe⟩ := rawPath_of_erase_eq e0 hp
+  have hrefeq : erase xk = erase xt := whole_ref_interp hw hparse hpath hsplit hget hraw hxk hi
+  refine ⟨zk, b, hlk, ?_, ?_⟩
+  · simp only [Mapping.toValue, rawPath, hl0]; exact hb
+  · rw [ek, hrefeq, hbe, he]
+
+/-- **In the rendered parameters, `k: ${k0}` equals the entry `k0`.**  If rendering well-formed
+parameters succeeds, `k` holds a string that parses to the whole-value reference `${k0}` (no
+`:` in `k0`) and `k0` is a top-level key, then both keys are present in the output and carry the
+same value — same kind, same data at every depth (`erase` forgets only the order/contents of
+flag sets of nested mappings).  (The parse hypothesis is what `C06.bare_ref_accepted` proves
+for `s = "${" ++ k0 ++ "}"` with `k0` non-empty and free of `$`, `\`, `}`.) -/
+theorem whole_ref_final_top {n : Nat} {root out : Mapping} {k : Key} {s k0 : Str}
+    (hw : WF root.toValue) (h : renderParamsF n root = .ok out)
+    (hk : (k, .str s) ∈ root.es) (hparse : Token.parse s = .ok (some (.ref [.lit k0])))
+    (hcolon : ':' ∉ k0) (hk0 : Key.str k0 ∈ keys root.es) :
+    ∃ a b, lookup k out.es = some a ∧ lookup (.str k0) out.es = some b ∧ erase a = erase b := by
+  obtain ⟨v0, hv0⟩ : ∃ v0, lookup (.str k0) root.es = some v0 := by
+    cases hl : lookup (.str k0) root.es with
+    | none => exact absurd hk0 (lookup_none_iff.1 hl)
+    | some v0 => exact ⟨v0, rfl⟩
+  obtain ⟨a, b, ha, hb, hab⟩ := whole_ref_final_path (sp := {}) hw h hk hparse
+    (slice_lit 0 root k0 {}) (splitColon_noColon hcolon) hv0 (by simp [rawPath])
+  refine ⟨a, b, ha, ?_, hab⟩
+  simp only [Mapping.toValue, rawPath] at hb
+  cases hl : lookup (.str k0) out.es with
+  | none => simp [hl] at hb
+  | some v' => simpa [hl, rawPath] using hb
 
 /-! ### 5. The order of the parameters does not matter -/
 
@@ -418,7 +450,7 @@ theorem order_independence {n : Nat} {root root' out : Mapping} (hw : WF root.to
             intro k y hky
             have hl : lookup k m1'.es = some y := lookup_of_mem_nodup hw1'.2 hky
             rw [B1 k (by show k ∈ List.map Prod.fst root'.es; rw [← k1']; exact mem_keys_of_mem hky)] at hl
-            exact E2 k y (Reclass.lookup_mem hl))
+            exact E2 k y (mem_of_lookup hl))
         obtain ⟨k2', _, _⟩ := flatEs_shape m1'.es {} m2' hw1'.1 (by simpa using hw1'.2) hm2'
         simp only [keys, List.map_nil, List.nil_append] at k2'
         have hlen : root'.es.length = root.es.length := hp.length_eq
@@ -488,10 +520,42 @@ theorem demoNested_wf : WF demoNested.toValue := by
   exact ⟨⟨by decide, trivial, by decide, ⟨⟨by decide, trivial, trivial⟩, by decide⟩,
     by decide, trivial, trivial⟩, by decide⟩
 
+/-! Observers with decidable equality, so that concrete runs can be checked by kernel evaluation
+(`Value`, `Token` and `Err` have no `DecidableEq`). -/
+
+/-- The three fields of a "key not found" error, if the result is one. -/
+def missingKeyOf {α : Type} : R α → Option (Str × Str × Str)
+  | .error (.missingKey a b c) => some (a, b, c)
+  | _ => none
+
+/-- The three fields of a "lookup into a non-mapping" error, if the result is one. -/
+def lookupIntoOf {α : Type} : R α → Option (Str × Str × Str)
+  | .error (.lookupInto a b c) => some (a, b, c)
+  | _ => none
+
+mutual
+/-- A token as text: `L(..)` literal, `R[..]` reference, `C[..]` combined. -/
+def tokText : Token → Str
+  | .lit s => 'L' :: '(' :: s ++ [')']
+  | .ref ps => 'R' :: '[' :: tokTextL ps ++ [']']
+  | .combined ps => 'C' :: '[' :: tokTextL ps ++ [']']
+def tokTextL : List Token → Str
+  | [] => []
+  | t :: ts => tokText t ++ tokTextL ts
+end
+
+/-- The parse of a string that contains a reference, as text. -/
+def parseText (s : Str) : Option Str :=
+  match Token.parse s with
+  | .ok (some t) => some (tokText t)
+  | _ => none
+
 example : Token.parse "${b}".toList = .ok (some (.ref [.lit "b".toList])) := by rfl
 
-example : Token.parse "${${c}:x}".toList =
-    .ok (some (.ref [.ref [.lit "c".toList], .lit ":x".toList])) := by rfl
+/-- `${${c}:x}` parses to `Ref [Ref [Lit c], Lit ":x"]`. -/
+example : parseText "${${c}:x}".toList = some "R[R[L(c)]L(:x)]".toList := by decide +kernel
+example : tokText (.ref [.ref [.lit "c".toList], .lit ":x".toList]) = "R[R[L(c)]L(:x)]".toList := by
+  decide +kernel
 
 /-- The render of `demo`: the reference became the (rendered) mapping, kind preserved. -/
 theorem demo_render : renderParamsF 50 demo =
@@ -523,32 +587,34 @@ example {n : Nat} {r : Value} {st st' : RState}
 example : (tokRender 20 demo (.ref [.lit "b".toList]) {}).toOption.map Prod.fst =
     some (.map [(.str "x".toList, .num (.int 1))] [] []) := by rfl
 
-/-- A nested reference in the path: `${${c}:x}` renders to the number `1` found at `b:x`
-(`whole_ref_interp` with all hypotheses discharged). -/
+/-- A nested reference in the path: `${${c}:x}` (token `Ref [Ref [Lit c], Lit ":x"]`) renders to
+the number `1` found at `b:x` (`whole_ref_path` with all hypotheses discharged). -/
 example {n : Nat} {r : Value} {st st' : RState}
-    (h : interp n demoNested (.str "${${c}:x}".toList) st = .ok (r, st')) :
+    (h : tokRender n demoNested (.ref [.ref [.lit "c".toList], .lit ":x".toList]) st = .ok (r, st')) :
     erase r = .num (.int 1) :=
-  whole_ref_interp (j := 20) (sp := {}) (path := "b:x".toList) (k0 := "b".toList)
+  whole_ref_path (j := 20) (sp := {}) (path := "b:x".toList) (k0 := "b".toList)
     (segs := ["x".toList]) (vt := .num (.int 1)) (m := 5) (st0 := {}) (st0' := {})
-    (r0 := .num (.int 1)) demoNested_wf (by rfl) (by rfl) (by rfl) (by rfl) (by rfl) h (by rfl)
+    (r0 := .num (.int 1)) demoNested_wf (by rfl) (by rfl) (by rfl) (by rfl) h (by rfl)
 
-example : renderParamsF 50 demoNested =
-    .ok ⟨[(.str "a".toList, .num (.int 1)),
-          (.str "b".toList, .map [(.str "x".toList, .num (.int 1))] [] []),
-          (.str "c".toList, .lit "b".toList)], [], []⟩ := by rfl
+/-- … and it does render (to JSON text `1`), also as part of the whole parameters. -/
+example : (tokRender 20 demoNested (.ref [.ref [.lit "c".toList], .lit ":x".toList]) {}).toOption.map
+    (fun p => jsonOf p.1) = some (.ok "1".toList) := by rfl
+
+example : C07.renderJson 50 demoNested = some "{\"a\":1,\"b\":{\"x\":1},\"c\":\"b\"}".toList := by
+  decide +kernel
 
 /-- A path that does not exist: the error names the reference text, the missing key and the
 parameter being rendered. -/
-example : renderParamsF 50 ⟨[(.str "a".toList, .str "${nope}".toList)], [], []⟩ =
-    .error (.missingKey "nope".toList "nope".toList "a".toList) := by rfl
+example : missingKeyOf (renderParamsF 50 ⟨[(.str "a".toList, .str "${nope}".toList)], [], []⟩) =
+    some ("nope".toList, "nope".toList, "a".toList) := by decide +kernel
 
-example : renderParamsF 50 ⟨[(.str "a".toList, .str "${b:y}".toList),
-      (.str "b".toList, .map [(.str "x".toList, .num (.int 1))] [] [])], [], []⟩ =
-    .error (.missingKey "b:y".toList "y".toList "a".toList) := by rfl
+example : missingKeyOf (renderParamsF 50 ⟨[(.str "a".toList, .str "${b:y}".toList),
+      (.str "b".toList, .map [(.str "x".toList, .num (.int 1))] [] [])], [], []⟩) =
+    some ("b:y".toList, "y".toList, "a".toList) := by decide +kernel
 
-example : renderParamsF 50 ⟨[(.str "a".toList, .str "${b:x:z}".toList),
-      (.str "b".toList, .map [(.str "x".toList, .num (.int 1))] [] [])], [], []⟩ =
-    .error (.lookupInto "b:x:z".toList "z".toList "a".toList) := by rfl
+example : lookupIntoOf (renderParamsF 50 ⟨[(.str "a".toList, .str "${b:x:z}".toList),
+      (.str "b".toList, .map [(.str "x".toList, .num (.int 1))] [] [])], [], []⟩) =
+    some ("b:x:z".toList, "z".toList, "a".toList) := by decide +kernel
 
 /-- `missing_top_key` with all hypotheses discharged. -/
 example : tokResolve 5 ⟨[(.str "a".toList, .str "${nope}".toList)], [], []⟩
@@ -572,8 +638,12 @@ example : renderParamsF 50 demoSwapped =
     .ok ⟨[(.str "b".toList, .map [(.str "x".toList, .num (.int 1))] [] []),
           (.str "a".toList, .map [(.str "x".toList, .num (.int 1))] [] [])], [], []⟩ := by rfl
 
-example : ∃ out', renderParamsF (50 + 2 + 1) demoSwapped = .ok out' ∧ out'.es.Perm _ ∧ _ :=
-  order_independence demo_wf (List.Perm.swap _ _ _) rfl rfl demo_render
+/-- `order_independence` with all hypotheses discharged. -/
+example : ∃ out', renderParamsF 53 demoSwapped = .ok out' ∧
+    out'.es.Perm [(.str "a".toList, .map [(.str "x".toList, .num (.int 1))] [] []),
+                  (.str "b".toList, .map [(.str "x".toList, .num (.int 1))] [] [])] :=
+  (order_independence (root' := demoSwapped) demo_wf (List.Perm.swap _ _ _) rfl rfl demo_render).imp
+    fun _ h => ⟨h.1, h.2.1⟩
 
 /-- **Counterexample to order independence at the same fuel** (see the header): with fuel 7
 `demo` renders, but with `b` written first the reference `a` is left with too little fuel. -/
